@@ -10,6 +10,10 @@ from .seams.preempt import Preempt
 from .world import fit_code, make_witness
 
 
+class UserAbort(Exception):
+    """Raised by a witness callback on the simulator's request: user code failing / interrupting a run."""
+
+
 def run_fit(
     run,
     state,
@@ -31,6 +35,9 @@ def run_fit(
     async_actions=(),
     snapshot=True,
     extra_codes=(),
+    container="list",
+    prior=None,
+    replace=(),
 ):
     """tcfg: {epochs, starting_epoch, pos_bs, neg_bs, k, lr, time}
 
@@ -40,12 +47,19 @@ def run_fit(
     Returns info dict."""
     pre = Preempt(run, [fit_code(), *extra_codes])
     cb_faults = [dict(f, fired=False) for f in faults if f["kind"] == "stop_cb"]
+    raise_faults = [dict(f, fired=False) for f in faults if f["kind"] == "raise_cb"]
     cur = {"j": -1}
 
     def on_event(kind, args, idx, nn_state, seq):
         if idx == 0:
             cur["j"] += 1
         j = cur["j"]
+        for f in raise_faults:
+            if not f["fired"] and f["event"] == j and f["cb"] == idx:
+                f["fired"] = True
+                run.log.add("ABORT", "cb", kind, tuple(int(a) for a in args), idx)
+                run.fault("raise_cb", f"{kind}/cb{idx}")
+                raise UserAbort(f"user code failed in {kind}")
         for f in cb_faults:
             if not f["fired"] and f["event"] == j and f["cb"] == idx:
                 f["fired"] = True
@@ -58,11 +72,37 @@ def run_fit(
     flavours = list(flavours or [])
     while len(flavours) < n_wit:
         flavours.append("class")
+    retire_flags = [{"v": False} for _ in range(n_wit)]
     wits = [
-        make_witness(run, i, handler=on_event, preempt=pre, snapshot=snapshot, flavour=flavours[i])
+        make_witness(run, i, handler=on_event, preempt=pre, snapshot=snapshot, flavour=flavours[i], retired=retire_flags[i])
         for i in range(n_wit)
     ]
     callbacks = list(cbs_before) + wits[:1] + list(cbs_between) + wits[1:] + list(cbs_after)
+    if prior is not None and prior.get("container_obj") is not None:
+        # the caller re-uses ITS container object from the previous run and replaces some entries in place
+        cobj = prior["container_obj"]
+        old_list = prior["callbacks"]
+        new_list = []
+        for pos_, old_cb in enumerate(old_list):
+            wi = next((i for i, w in enumerate(prior["witnesses"]) if w is old_cb), None)
+            if wi is not None and wi in replace:
+                prior["retire_flags"][wi]["v"] = True
+                cobj[pos_] = wits[wi]
+                new_list.append(wits[wi])
+            else:
+                new_list.append(old_cb)  # (an unchanged witness keeps reporting through the earlier run's handler)
+        callbacks = cobj
+        callbacks_list = new_list
+    elif container == "tuple":
+        callbacks_list = callbacks
+        callbacks = tuple(callbacks)
+    elif container == "CallbackList":
+        from qucumber.callbacks import CallbackList
+
+        callbacks_list = callbacks
+        callbacks = CallbackList(callbacks)
+    else:
+        callbacks_list = callbacks
 
     preset = False
     for f in faults:
@@ -119,7 +159,9 @@ def run_fit(
         kwargs["scheduler"] = scheduler
         kwargs["scheduler_args"] = scheduler_args or {}
 
-    info = {"raised": None, "crashed": False, "preset": preset, "callbacks": callbacks, "witnesses": wits}
+    info = {"raised": None, "crashed": False, "preset": preset, "callbacks": callbacks_list, "witnesses": wits,
+            "container_obj": callbacks if container == "CallbackList" or (prior is not None and prior.get("container_obj") is not None) else None,
+            "retire_flags": retire_flags}
     out = io.StringIO()
     run.log.add("op", "fit", tcfg.get("starting_epoch", 1), tcfg["epochs"])
     info["digest_before"] = state_digest(state)
